@@ -515,8 +515,13 @@ pub fn gen_cff(rng: &mut Rng, cff2: bool, used: &mut [u32; 64], shape: &mut Stri
 
 /// Wrap a CFF/CFF2 table into an OpenType font (head, maxp 0.5, hhea, hmtx, cmap, OS/2, post).
 pub fn cff_font(c: &CffOut, rng: &mut Rng) -> Vec<u8> {
+    let upem = *rng.pick(&[1000u16, 1000, 2048, 1, 65535]);
+    cff_font_upem(c, upem)
+}
+
+pub fn cff_font_upem(c: &CffOut, upem: u16) -> Vec<u8> {
     let mut f = TtFont::default();
-    f.upem = *rng.pick(&[1000u16, 1000, 2048, 1, 65535]);
+    f.upem = upem;
     f.glyphs = vec![vec![]; c.n_glyphs];
     let base = f.build();
     let mut tables: Vec<([u8; 4], Vec<u8>)> = split_tables(&base).into_iter().filter(|(t, _)| !matches!(t, b"glyf" | b"loca")).collect();
@@ -583,4 +588,821 @@ pub fn sec_cff(ctx: &mut Ctx, items: &mut Items) {
             ctx.distinct("charstring_grammar_productions_used", i as u64);
         }
     }
+}
+
+
+// ====================================================================== capacity-directed family
+//
+// Fixed-size tables inside the CFF / CFF2 hinter and the charstring evaluator:
+//   * hint map: 96 edges (`MAX_HINTS`, skrifa cff/hint.rs); a normal stem inserts a PAIR of edges, a
+//     ghost stem (width -20 top / -21 bottom) ONE edge, language group 1 without blues two synthetic
+//     em-box edges, the initial map one baseline edge;
+//   * stem hints: 96 (`stem_hints`, `stem_count: u8`), hint mask 12 bytes (`HINT_MASK_SIZE`); the
+//     evaluator reads ceil(stems / 8) mask bytes whatever the count;
+//   * operand stack: 513 entries (read-fonts postscript/stack.rs; the Type 2 limit is 48);
+//   * subroutine nesting: 10 (`NESTING_DEPTH_LIMIT`);
+//   * blend: n x (regions + 1) + 1 operands on that stack, 16 precomputed region scalars.
+// Every glyph below is ONE point of a sweep across one of these boundaries; glyphs are packed 16 to
+// a font and each font is drawn by the `cffcap` group of `drive` (all glyphs, unhinted + CFF-hinted,
+// fixed sizes). Enumerated, not sampled: the family does not depend on VERIF_SEED.
+
+/// Local / global subroutines of one directed font. Indices 0..=11 of both and 12..=23 (local) /
+/// 12..=22 (global) are call chains (see `Acc::new`); glyph builders append their own after those.
+pub struct Acc {
+    pub cff2: bool,
+    pub lsubrs: Vec<Vec<u8>>,
+    pub gsubrs: Vec<Vec<u8>>,
+}
+
+const BIAS: i32 = 107; // < 1240 subroutines per font
+const CHAIN_END: usize = 11;
+const ALT_START: usize = 12;
+const ALT_LEVELS: usize = 12; // local 12 -> global 12 -> local 13 -> ... -> local 23
+
+impl Acc {
+    pub fn new(cff2: bool) -> Self {
+        let mut a = Acc { cff2, lsubrs: vec![], gsubrs: vec![] };
+        // chains: subr i pushes `1 1` and calls i + 1; subr 11 is `rlineto` (consumes whatever is there)
+        for global in [false, true] {
+            for i in 0..=CHAIN_END {
+                let mut b = vec![];
+                if i < CHAIN_END {
+                    cs_num(&mut b, 1);
+                    cs_num(&mut b, 1);
+                    cs_num(&mut b, (i + 1) as i32 - BIAS);
+                    b.push(if global { 29 } else { 10 });
+                } else {
+                    b.push(5);
+                }
+                a.ret(&mut b);
+                if global { a.gsubrs.push(b) } else { a.lsubrs.push(b) }
+            }
+        }
+        // alternating chain: local 12+i calls global 12+i, global 12+i calls local 12+i+1; local 23 = rlineto
+        for i in 0..ALT_LEVELS {
+            let mut l = vec![];
+            if i + 1 < ALT_LEVELS {
+                cs_num(&mut l, 1);
+                cs_num(&mut l, 1);
+                cs_num(&mut l, (ALT_START + i) as i32 - BIAS);
+                l.push(29);
+            } else {
+                l.push(5);
+            }
+            a.ret(&mut l);
+            a.lsubrs.push(l);
+            if i + 1 < ALT_LEVELS {
+                let mut g = vec![];
+                cs_num(&mut g, (ALT_START + i + 1) as i32 - BIAS);
+                g.push(10);
+                a.ret(&mut g);
+                a.gsubrs.push(g);
+            }
+        }
+        a
+    }
+    fn ret(&self, b: &mut Vec<u8>) {
+        if !self.cff2 {
+            b.push(11);
+        }
+    }
+    fn add_local(&mut self, mut body: Vec<u8>) -> usize {
+        self.ret(&mut body);
+        self.lsubrs.push(body);
+        self.lsubrs.len() - 1
+    }
+    fn add_global(&mut self, mut body: Vec<u8>) -> usize {
+        self.ret(&mut body);
+        self.gsubrs.push(body);
+        self.gsubrs.len() - 1
+    }
+}
+
+/// Stem operators for `stems` = (position, width) in declaration order, `per_op` stems per operator
+/// (every operator starts again from zero; the deltas may be negative).
+fn emit_stems(out: &mut Vec<u8>, stems: &[(i32, i32)], op: u8, per_op: usize) {
+    for chunk in stems.chunks(per_op.max(1)) {
+        let mut prev_end = 0i32;
+        for (y, dy) in chunk {
+            cs_num(out, y - prev_end);
+            cs_num(out, *dy);
+            prev_end = y + dy;
+        }
+        out.push(op);
+    }
+}
+
+fn mask_bytes(n_stems: usize, pattern: u8) -> Vec<u8> {
+    vec![pattern; n_stems.div_ceil(8)]
+}
+
+/// A closed box from (x, y0) to (x + 100, y1): touches the whole y range so that every edge of the
+/// hint map takes part in the interpolation.
+fn emit_box(out: &mut Vec<u8>, first: bool, x: i32, y0: i32, y1: i32, cur: &mut (i32, i32)) {
+    let _ = first;
+    cs_num(out, x - cur.0);
+    cs_num(out, y0 - cur.1);
+    out.push(21);
+    for (dx, dy) in [(100, 0), (0, (y1 - y0) / 2), (0, y1 - y0 - (y1 - y0) / 2), (-100, 0)] {
+        cs_num(out, dx);
+        cs_num(out, dy);
+    }
+    out.push(5);
+    *cur = (x, y1);
+}
+
+fn finish_glyph(out: &mut Vec<u8>, cff2: bool) {
+    if !cff2 {
+        out.push(14);
+    }
+}
+
+#[derive(Clone, Debug)]
+pub struct EdgeCfg {
+    /// normal stems (two edges each)
+    pub pairs: usize,
+    /// ghost stems (one edge each)
+    pub ghosts: usize,
+    /// 0..=6, see `edge_glyph`
+    pub order: usize,
+    /// 0 top (-20), 1 bottom (-21), 2 alternating
+    pub ghost_kind: usize,
+    /// 0 hstem x20, 1 hstemhm single operator, 2 hstemhm x24
+    pub op_mode: usize,
+    /// 0 none, 1 hintmask all, 2 hintmask 0xAA, 3 cntrmask all + hintmask 0x55 ... all, 4 all / 0xAA / all
+    pub mask_mode: usize,
+    pub via_subr: usize,
+    /// 0 none, 1 a zero-width stem, 2 an overlapping duplicate, 3 an inverted pair, each declared in the middle
+    pub extra: usize,
+    pub width: bool,
+}
+
+/// Hint-map capacity: `pairs` disjoint normal stems and `ghosts` ghost stems on a 20-unit grid
+/// starting at y = -200, declared in `order`:
+/// 0 ascending, ghosts lowest (declared first) | 1 ascending, ghosts highest (declared last) |
+/// 2 ascending, ghosts in the middle | 3 descending, ghosts highest (declared first) |
+/// 4 descending, ghosts lowest (declared last) | 5 pseudo-random order and ghost slots |
+/// 6 pairs ascending, then the ghosts, which sit in the middle of the coordinate range.
+pub fn edge_glyph(acc: &mut Acc, c: &EdgeCfg, salt: u64) -> Vec<u8> {
+    let n = c.pairs + c.ghosts;
+    // which grid slots carry ghosts
+    let mut is_ghost = vec![false; n];
+    let mark = |v: &mut Vec<bool>, from: usize, k: usize| {
+        for g in v.iter_mut().skip(from).take(k) {
+            *g = true;
+        }
+    };
+    match c.order {
+        0 | 4 => mark(&mut is_ghost, 0, c.ghosts),
+        1 | 3 => mark(&mut is_ghost, n - c.ghosts, c.ghosts),
+        2 | 6 => mark(&mut is_ghost, (n - c.ghosts) / 2, c.ghosts),
+        _ => {
+            let mut r = Rng::derive(salt, "edge-ghost-slots", n as u64);
+            let mut left = c.ghosts;
+            while left > 0 {
+                let k = r.usize(n);
+                if !is_ghost[k] {
+                    is_ghost[k] = true;
+                    left -= 1;
+                }
+            }
+        }
+    }
+    let mut gi = 0usize;
+    let mut stems: Vec<(i32, i32, bool)> = (0..n)
+        .map(|k| {
+            let y = 20 * k as i32 - 200;
+            if is_ghost[k] {
+                let top = match c.ghost_kind {
+                    0 => true,
+                    1 => false,
+                    _ => {
+                        gi += 1;
+                        gi % 2 == 1
+                    }
+                };
+                // top ghost: edge at the stem's min; bottom ghost: edge at its max = position - 21
+                if top { (y + 5, -20, true) } else { (y + 26, -21, true) }
+            } else {
+                (y, 10, false)
+            }
+        })
+        .collect();
+    match c.order {
+        3 | 4 => stems.reverse(),
+        5 => Rng::derive(salt, "edge-order", n as u64).shuffle(&mut stems),
+        6 => stems.sort_by_key(|s| s.2), // pairs first (stable), ghosts last
+        _ => {}
+    }
+    let mut stems: Vec<(i32, i32)> = stems.into_iter().map(|s| (s.0, s.1)).collect();
+    match c.extra {
+        1 => stems.insert(n / 2, (20 * (n as i32 / 3) - 200 + 14, 0)),
+        2 => {
+            let d = stems[n / 3];
+            stems.insert(n / 2, d)
+        }
+        3 => stems.insert(n / 2, (20 * (n as i32 / 4) - 200 + 18, -2)),
+        _ => {}
+    }
+    let n_decl = stems.len();
+    let mut hints = vec![];
+    let (op, per_op) = match c.op_mode {
+        0 => (1u8, 20usize),
+        1 => (18, n_decl),
+        _ => (18, 24),
+    };
+    emit_stems(&mut hints, &stems, op, per_op);
+    let mut out = vec![];
+    if c.width && !acc.cff2 {
+        cs_num(&mut out, 321);
+    }
+    match c.via_subr {
+        1 => {
+            let i = acc.add_local(hints);
+            cs_num(&mut out, i as i32 - BIAS);
+            out.push(10);
+        }
+        2 => {
+            // two levels: a global subroutine that calls the local one
+            let i = acc.add_local(hints);
+            let mut g = vec![];
+            cs_num(&mut g, i as i32 - BIAS);
+            g.push(10);
+            let gi = acc.add_global(g);
+            cs_num(&mut out, gi as i32 - BIAS);
+            out.push(29);
+        }
+        _ => out.extend(hints),
+    }
+    let (y0, y1) = (-230, 20 * n as i32 - 170);
+    let mut cur = (0, 0);
+    let hm = |out: &mut Vec<u8>, op: u8, pat: u8| {
+        out.push(op);
+        out.extend(mask_bytes(n_decl, pat));
+    };
+    match c.mask_mode {
+        0 => emit_box(&mut out, true, 50, y0, y1, &mut cur),
+        1 => {
+            hm(&mut out, 19, 0xFF);
+            emit_box(&mut out, true, 50, y0, y1, &mut cur);
+        }
+        2 => {
+            hm(&mut out, 19, 0xAA);
+            emit_box(&mut out, true, 50, y0, y1, &mut cur);
+        }
+        3 => {
+            hm(&mut out, 20, 0xFF);
+            hm(&mut out, 19, 0x55);
+            emit_box(&mut out, true, 50, y0, y1, &mut cur);
+            hm(&mut out, 19, 0xFF);
+            emit_box(&mut out, false, 250, y0 + 7, y1 - 7, &mut cur);
+        }
+        _ => {
+            hm(&mut out, 19, 0xFF);
+            emit_box(&mut out, true, 50, y0, y1, &mut cur);
+            hm(&mut out, 19, 0xAA);
+            emit_box(&mut out, false, 250, y0 + 3, y1 - 3, &mut cur);
+            hm(&mut out, 19, 0xFF);
+            emit_box(&mut out, false, 450, y0, y1, &mut cur);
+        }
+    }
+    finish_glyph(&mut out, acc.cff2);
+    out
+}
+
+/// Stem-array / mask-length capacity: `h` compact hstems (4-unit grid, all disjoint) + `v` vstems,
+/// a hint mask of exactly ceil((h + v) / 8) bytes of `pattern`, a box, a counter mask, a box.
+/// `op_mode`: 0 hstem/vstem, 1 hstemhm/vstemhm, 2 hstemhm + vstems as operands of the hintmask.
+pub fn stemcount_glyph(acc: &mut Acc, h: usize, v: usize, pattern: u8, op_mode: usize, width: bool) -> Vec<u8> {
+    let hs: Vec<(i32, i32)> = (0..h).map(|k| (4 * k as i32 - 100, 2)).collect();
+    let vs: Vec<(i32, i32)> = (0..v).map(|k| (30 * k as i32, 10)).collect();
+    let mut out = vec![];
+    if width && !acc.cff2 {
+        cs_num(&mut out, 444);
+    }
+    let (hop, vop) = if op_mode == 0 { (1u8, 3u8) } else { (18, 23) };
+    // <= 24 stems per operator keeps the Type 2 stack limit; the last variant uses big operators
+    emit_stems(&mut out, &hs, hop, if op_mode == 2 { 200 } else { 24 });
+    if op_mode == 2 {
+        // implicit vstemhm: operands left on the stack when the mask operator arrives
+        let mut prev = 0;
+        for (x, dx) in &vs {
+            cs_num(&mut out, x - prev);
+            cs_num(&mut out, *dx);
+            prev = x + dx;
+        }
+    } else {
+        emit_stems(&mut out, &vs, vop, 24);
+    }
+    let n = h + v;
+    out.push(19);
+    out.extend(mask_bytes(n, pattern));
+    let mut cur = (0, 0);
+    let y1 = 4 * h as i32 - 90;
+    emit_box(&mut out, true, 20, -110, y1, &mut cur);
+    out.push(20);
+    out.extend(mask_bytes(n, !pattern));
+    emit_box(&mut out, false, 220, -105, y1 - 5, &mut cur);
+    out.push(19);
+    out.extend(mask_bytes(n, 0xFF));
+    emit_box(&mut out, false, 420, -110, y1, &mut cur);
+    finish_glyph(&mut out, acc.cff2);
+    out
+}
+
+/// Operand-stack capacity: exactly `n` operands on the stack when `op` arrives.
+/// `op`: a one-byte path / hint operator, 10 = callsubr (to the chain end, `rlineto`), 19 = hintmask
+/// (operands = implicit vstems, mask bytes follow), 16 = blend of one value (CFF2).
+/// `split`: push the first half in the charstring and the rest inside a subroutine.
+pub fn stack_glyph(acc: &mut Acc, n: usize, op: u8, split: bool, n_regions: usize) -> Vec<u8> {
+    let mut out = vec![];
+    let hint_op = matches!(op, 1 | 3 | 18 | 23 | 19 | 20);
+    if !hint_op {
+        cs_num(&mut out, 0);
+        cs_num(&mut out, 0);
+        out.push(21);
+    }
+    // the CFF1 width rule eats one operand of an odd count before the first stack-clearing operator;
+    // that is part of the boundary being swept (n operands are on the stack either way)
+    let mut n_plain = n;
+    if op == 10 {
+        n_plain = n.saturating_sub(1);
+    }
+    if op == 16 {
+        n_plain = n.saturating_sub(n_regions + 2);
+    }
+    let push = |b: &mut Vec<u8>, k: usize| {
+        for i in 0..k {
+            cs_num(b, if hint_op { 1 + (i % 2) as i32 } else { 1 - 2 * ((i / 2) % 2) as i32 });
+        }
+    };
+    if split {
+        push(&mut out, n_plain / 2);
+        let mut body = vec![];
+        push(&mut body, n_plain - n_plain / 2);
+        let i = acc.add_local(body);
+        // the subroutine number is itself an operand while the call executes
+        cs_num(&mut out, i as i32 - BIAS);
+        out.push(10);
+    } else {
+        push(&mut out, n_plain);
+    }
+    match op {
+        10 => {
+            cs_num(&mut out, CHAIN_END as i32 - BIAS);
+            out.push(10);
+        }
+        16 => {
+            // one value, its deltas, the count
+            for _ in 0..n_regions + 1 {
+                cs_num(&mut out, 2);
+            }
+            cs_num(&mut out, 1);
+            out.push(16);
+            out.push(6);
+        }
+        19 | 20 => {
+            out.push(op);
+            out.extend(mask_bytes(n / 2, 0xFF));
+            let mut cur = (0, 0);
+            emit_box(&mut out, true, 10, -50, 300, &mut cur);
+        }
+        1 | 3 | 18 | 23 => {
+            out.push(op);
+            let mut cur = (0, 0);
+            emit_box(&mut out, true, 10, -50, 300, &mut cur);
+        }
+        _ => out.push(op),
+    }
+    finish_glyph(&mut out, acc.cff2);
+    out
+}
+
+/// Subroutine nesting: enter the call chain so that the deepest `rlineto` runs at nesting `depth`
+/// (the charstring itself is level 0). kind 0 local, 1 global, 2 alternating local / global.
+/// `with_stems`: declare 48 disjoint hstems first, so the deepest level draws through a full hint map.
+pub fn nesting_glyph(acc: &mut Acc, depth: usize, kind: usize, with_stems: bool) -> Vec<u8> {
+    let mut out = vec![];
+    if with_stems {
+        let stems: Vec<(i32, i32)> = (0..48).map(|k| (20 * k - 200, 10)).collect();
+        emit_stems(&mut out, &stems, 1, 20);
+    }
+    cs_num(&mut out, 10);
+    cs_num(&mut out, -150);
+    out.push(21);
+    match kind {
+        0 | 1 => {
+            // chain has 12 levels: entering at subr s reaches the end at nesting 12 - s
+            let depth = depth.clamp(1, CHAIN_END + 1);
+            let s = CHAIN_END + 1 - depth;
+            cs_num(&mut out, s as i32 - BIAS);
+            out.push(if kind == 1 { 29 } else { 10 });
+        }
+        _ => {
+            // alternating chain: local 12+i (nesting 2i+1 from its entry), last local at 2*(levels-1-i)+1
+            // entering at local 12+i reaches the end at nesting 2 * (ALT_LEVELS - 1 - i) + 1; one more
+            // level is added by going through a fresh global wrapper when `depth` is even
+            let want = depth.clamp(1, 2 * ALT_LEVELS);
+            let odd = if want % 2 == 1 { want } else { want - 1 };
+            let i = ALT_LEVELS - 1 - (odd - 1) / 2;
+            if want % 2 == 1 {
+                cs_num(&mut out, (ALT_START + i) as i32 - BIAS);
+                out.push(10);
+            } else {
+                let mut g = vec![];
+                cs_num(&mut g, (ALT_START + i) as i32 - BIAS);
+                g.push(10);
+                let gi = acc.add_global(g);
+                cs_num(&mut out, gi as i32 - BIAS);
+                out.push(29);
+            }
+        }
+    }
+    finish_glyph(&mut out, acc.cff2);
+    out
+}
+
+/// CFF2 blend capacity: `n` values x (`k` regions + 1) + the count, on top of `base` plain operands.
+/// `vsindex`: select ItemVariationData 1 (one region) first.
+pub fn blend_glyph(acc: &mut Acc, n: usize, k: usize, base: usize, vsindex: bool, twice: bool) -> Vec<u8> {
+    let mut out = vec![];
+    if vsindex {
+        cs_num(&mut out, 1);
+        out.push(15);
+    }
+    cs_num(&mut out, 0);
+    cs_num(&mut out, 0);
+    out.push(21);
+    for i in 0..base {
+        cs_num(&mut out, 1 - 2 * ((i / 2) % 2) as i32);
+    }
+    for i in 0..n * (k + 1) {
+        cs_num(&mut out, if i < n { 3 } else { (i % 5) as i32 - 2 });
+    }
+    cs_num(&mut out, n as i32);
+    out.push(16);
+    if twice {
+        // blend the results again, one at a time, with the stack still deep
+        for _ in 0..k + 1 {
+            cs_num(&mut out, 1);
+        }
+        cs_num(&mut out, 1);
+        out.push(16);
+    }
+    out.push(6); // hlineto takes any count
+    finish_glyph(&mut out, acc.cff2);
+    out
+}
+
+/// Private DICT for the directed fonts. kind 0: nothing but Subrs; 1: LanguageGroup 1, no blues (two
+/// synthetic em-box edges in every hint map); 2: ordinary blue zones (capture + locking); 3:
+/// LanguageGroup 1 with two blues outside the ideographic em box (the other em-box branch).
+fn private_dict_directed(kind: usize, subrs_off: i32) -> Vec<u8> {
+    let mut d = vec![];
+    let arr = |d: &mut Vec<u8>, vals: &[i32], op: &[u8]| {
+        for v in vals {
+            d.extend(int5(*v));
+        }
+        d.extend_from_slice(op);
+    };
+    match kind {
+        1 => arr(&mut d, &[1], &[12, 17]),
+        2 => {
+            arr(&mut d, &[-15, 15, 500, 15, 185, 15], &[6]); // BlueValues -15 0 500 515 700 715
+            arr(&mut d, &[-250, 10], &[7]); // OtherBlues
+            arr(&mut d, &[80], &[10]); // StdHW
+        }
+        3 => {
+            arr(&mut d, &[-200, 10, 1100, 10], &[6]); // -200 -190 910 920
+            arr(&mut d, &[1], &[12, 17]);
+        }
+        _ => {}
+    }
+    d.extend(int5(subrs_off));
+    d.push(19);
+    d
+}
+
+/// A VALID variation store: `k` regions (0, 1, 1) on axis i % axis_count, ItemVariationData 0 with all
+/// `k` regions, ItemVariationData 1 with the first region only.
+fn var_store_directed(axis_count: u16, k: usize) -> Vec<u8> {
+    let mut ivs = vec![];
+    let datas: Vec<Vec<u16>> = vec![(0..k as u16).collect(), (0..k.min(1) as u16).collect()];
+    ivs.extend_from_slice(&1u16.to_be_bytes());
+    let header = 8 + 4 * datas.len();
+    ivs.extend_from_slice(&(header as u32).to_be_bytes());
+    ivs.extend_from_slice(&(datas.len() as u16).to_be_bytes());
+    let region_list_len = 4 + k * axis_count as usize * 6;
+    let mut off = header + region_list_len;
+    for d in &datas {
+        ivs.extend_from_slice(&(off as u32).to_be_bytes());
+        off += 6 + 2 * d.len();
+    }
+    ivs.extend_from_slice(&axis_count.to_be_bytes());
+    ivs.extend_from_slice(&(k as u16).to_be_bytes());
+    for r in 0..k {
+        for a in 0..axis_count as usize {
+            let t: [i16; 3] = if a == r % axis_count.max(1) as usize { [0, 0x4000, 0x4000] } else { [0, 0, 0] };
+            for v in t {
+                ivs.extend_from_slice(&v.to_be_bytes());
+            }
+        }
+    }
+    for d in &datas {
+        ivs.extend_from_slice(&0u16.to_be_bytes());
+        ivs.extend_from_slice(&0u16.to_be_bytes());
+        ivs.extend_from_slice(&(d.len() as u16).to_be_bytes());
+        for r in d {
+            ivs.extend_from_slice(&r.to_be_bytes());
+        }
+    }
+    let mut out = vec![];
+    out.extend_from_slice(&(ivs.len() as u16).to_be_bytes());
+    out.extend(ivs);
+    out
+}
+
+/// Assemble a well-formed CFF / CFF2 table around the given charstrings and subroutines.
+pub fn assemble_directed(cff2: bool, charstrings: &[Vec<u8>], acc: &Acc, pd_kind: usize, axis_count: u16, n_regions: usize) -> CffOut {
+    let os = |items: &[Vec<u8>]| -> u8 {
+        let total: usize = items.iter().map(|i| i.len()).sum::<usize>() + 1;
+        if total > 0xFFFF {
+            4
+        } else if total > 0xFF {
+            2
+        } else {
+            1
+        }
+    };
+    let gsubr_index = index(&acc.gsubrs, cff2, os(&acc.gsubrs));
+    let cs_index = index(charstrings, cff2, os(charstrings));
+    let lsubr_index = index(&acc.lsubrs, cff2, os(&acc.lsubrs));
+    let pd0 = private_dict_directed(pd_kind, 0);
+    let pd = private_dict_directed(pd_kind, pd0.len() as i32);
+    let mut t = vec![];
+    if !cff2 {
+        t.extend_from_slice(&[1, 0, 4, 4]);
+        t.extend(index(&[b"A".to_vec()], false, 1));
+        let top_len = 17usize;
+        let top_index_len = 2 + 1 + 2 + top_len;
+        let string_index = index(&[], false, 1);
+        let cs_off = t.len() + top_index_len + string_index.len() + gsubr_index.len();
+        let priv_off = cs_off + cs_index.len();
+        let mut top = vec![];
+        top.extend(int5(cs_off as i32));
+        top.push(17);
+        top.extend(int5(pd.len() as i32));
+        top.extend(int5(priv_off as i32));
+        top.push(18);
+        t.extend(index(&[top], false, 1));
+        t.extend(string_index);
+        t.extend(gsubr_index);
+        t.extend(cs_index);
+        t.extend(pd);
+        t.extend(lsubr_index);
+    } else {
+        let top_len = 19usize;
+        t.extend_from_slice(&[2, 0, 5]);
+        t.extend_from_slice(&(top_len as u16).to_be_bytes());
+        let cs_off = 5 + top_len + gsubr_index.len();
+        let fd_off = cs_off + cs_index.len();
+        let fd_index_len = 18usize;
+        let priv_off = fd_off + fd_index_len;
+        let vs_off = priv_off + pd.len() + lsubr_index.len();
+        let mut top = vec![];
+        top.extend(int5(cs_off as i32));
+        top.push(17);
+        top.extend(int5(fd_off as i32));
+        top.extend_from_slice(&[12, 36]);
+        top.extend(int5(vs_off as i32));
+        top.push(24);
+        t.extend(top);
+        t.extend(gsubr_index);
+        t.extend(cs_index);
+        let mut fd = vec![];
+        fd.extend(int5(pd.len() as i32));
+        fd.extend(int5(priv_off as i32));
+        fd.push(18);
+        t.extend(index(&[fd], true, 1));
+        t.extend(pd);
+        t.extend(lsubr_index);
+        t.extend(var_store_directed(axis_count, n_regions));
+    }
+    CffOut { table: t, n_glyphs: charstrings.len(), cff2, axis_count }
+}
+
+/// One enumerated glyph of the directed family.
+#[derive(Clone, Debug)]
+pub enum Directed {
+    Edge(EdgeCfg),
+    StemCount { h: usize, v: usize, pattern: u8, op_mode: usize, width: bool },
+    Stack { n: usize, op: u8, split: bool },
+    Nesting { depth: usize, kind: usize, with_stems: bool },
+    Blend { n: usize, base: usize, vsindex: bool, twice: bool },
+}
+
+/// Font-level parameters the glyph recipes depend on.
+#[derive(Clone, Copy, Debug)]
+pub struct Flavor {
+    pub cff2: bool,
+    pub pd_kind: usize,
+    /// CFF2: regions of ItemVariationData 0
+    pub n_regions: usize,
+}
+
+/// All glyph recipes of one flavor, in a fixed order.
+pub fn directed_recipes(fl: &Flavor) -> Vec<Directed> {
+    let mut v = vec![];
+    let embox = if fl.pd_kind == 1 || fl.pd_kind == 3 { 2usize } else { 0 };
+    let mut i = 0usize;
+    // (A) edge totals 92..=100 (em-box edges included) with 0..=3 ghosts, every declaration order
+    for total in 92..=100usize {
+        for ghosts in 0..=3usize {
+            let Some(rest) = total.checked_sub(ghosts + embox) else { continue };
+            if rest % 2 != 0 {
+                continue;
+            }
+            let pairs = rest / 2;
+            for order in 0..7usize {
+                if ghosts == 0 && !matches!(order, 0 | 3 | 5) {
+                    continue; // the orders differ only in where the ghosts go
+                }
+                for ghost_kind in 0..(if ghosts == 0 { 1 } else { 3 }) {
+                    // every stem-operator mode x mask mode; subroutine / extra-stem / width variants
+                    // cycle with coprime periods
+                    for op_mode in 0..3usize {
+                        for mask_mode in 0..5usize {
+                            let j = i * 15 + op_mode * 5 + mask_mode;
+                            v.push(Directed::Edge(EdgeCfg {
+                                pairs,
+                                ghosts,
+                                order,
+                                ghost_kind,
+                                op_mode,
+                                mask_mode,
+                                via_subr: if j % 7 == 3 { 1 } else if j % 7 == 5 { 2 } else { 0 },
+                                extra: if j % 4 == 2 { 1 + (j / 4) % 3 } else { 0 },
+                                width: j % 2 == 1,
+                            }));
+                        }
+                    }
+                    i += 1;
+                }
+            }
+        }
+    }
+    // pairs sweeping 40..=56 with no / one ghost, every mask mode
+    for pairs in 40..=56usize {
+        for ghosts in 0..=1usize {
+            for mask_mode in 0..5usize {
+                i += 1;
+                v.push(Directed::Edge(EdgeCfg { pairs, ghosts, order: [0, 1, 2, 3, 6][i % 5], ghost_kind: i % 3, op_mode: i % 3, mask_mode, via_subr: (i % 5 == 0) as usize, extra: 0, width: i % 2 == 0 }));
+            }
+        }
+    }
+    // (B) stem counts around the 48 / 96 limits and every multiple of 8 up to 13 bytes of mask
+    let mut totals: Vec<usize> = vec![];
+    for k in 1..=13usize {
+        totals.extend([8 * k - 1, 8 * k, 8 * k + 1]);
+    }
+    totals.extend([46, 50, 94, 98, 127, 128, 129, 200, 255, 256, 257]);
+    totals.sort_unstable();
+    totals.dedup();
+    for (q, t) in totals.iter().enumerate() {
+        for (w, vst) in [0usize, 1, 8].iter().enumerate() {
+            if *vst >= *t {
+                continue;
+            }
+            let pattern = [0xFFu8, 0xAA, 0x00, 0x01, 0x80][(q + w) % 5];
+            v.push(Directed::StemCount { h: t - vst, v: *vst, pattern, op_mode: (q + 2 * w) % 3, width: (q + w) % 2 == 0 });
+        }
+    }
+    // (C) operand-stack depth at the Type 2 limit (48) and at the implementation limit (513)
+    for n in [46usize, 47, 48, 49, 50, 95, 96, 97, 192, 193, 510, 511, 512, 513, 514, 515] {
+        for (q, op) in [5u8, 8, 1, 18, 19, 20, 21, 6, 7, 24, 25, 26, 27, 30, 31, 10, 16].iter().enumerate() {
+            if *op == 16 && !fl.cff2 {
+                continue;
+            }
+            v.push(Directed::Stack { n, op: *op, split: (n + q) % 3 == 0 });
+        }
+    }
+    // (D) subroutine nesting 8..=12 (limit 10), three chain kinds, with and without a full hint map
+    for depth in 8..=12usize {
+        for kind in 0..3usize {
+            for with_stems in [false, true] {
+                v.push(Directed::Nesting { depth, kind, with_stems });
+            }
+        }
+    }
+    // (E) CFF2 blend operand counts at the stack limit
+    if fl.cff2 {
+        let k = fl.n_regions;
+        let n_max = 512 / (k + 1);
+        for n in [0usize, 1, n_max.saturating_sub(1), n_max, n_max + 1] {
+            for (vsindex, twice) in [(false, false), (false, true), (true, false)] {
+                v.push(Directed::Blend { n, base: 0, vsindex, twice });
+            }
+        }
+        // a single-value blend on top of a nearly full stack
+        let fit = 513usize.saturating_sub(k + 2);
+        for base in [fit.saturating_sub(2), fit.saturating_sub(1), fit, fit + 1] {
+            v.push(Directed::Blend { n: 1, base, vsindex: false, twice: base % 2 == 0 });
+            v.push(Directed::Blend { n: 1, base: base.min(510), vsindex: true, twice: false });
+        }
+    }
+    v
+}
+
+pub fn directed_flavors() -> Vec<Flavor> {
+    let mut v = vec![];
+    for pd_kind in 0..4 {
+        v.push(Flavor { cff2: false, pd_kind, n_regions: 0 });
+    }
+    for (pd_kind, n_regions) in [(0usize, 1usize), (1, 2), (2, 16), (3, 17), (0, 0)] {
+        v.push(Flavor { cff2: true, pd_kind, n_regions });
+    }
+    v
+}
+
+pub const DIRECTED_GLYPHS_PER_FONT: usize = 16;
+
+/// Build directed font number `chunk` of `fl` (glyph 0 = .notdef, then up to 16 recipes).
+pub fn directed_font(fl: &Flavor, recipes: &[Directed], chunk: usize) -> (Vec<u8>, String) {
+    let mut acc = Acc::new(fl.cff2);
+    let mut charstrings = vec![if fl.cff2 { vec![] } else { vec![14] }];
+    let lo = chunk * DIRECTED_GLYPHS_PER_FONT;
+    let hi = (lo + DIRECTED_GLYPHS_PER_FONT).min(recipes.len());
+    for (q, r) in recipes[lo..hi].iter().enumerate() {
+        let salt = (lo + q) as u64;
+        charstrings.push(match r {
+            Directed::Edge(c) => edge_glyph(&mut acc, c, salt),
+            Directed::StemCount { h, v, pattern, op_mode, width } => stemcount_glyph(&mut acc, *h, *v, *pattern, *op_mode, *width),
+            Directed::Stack { n, op, split } => stack_glyph(&mut acc, *n, *op, *split, fl.n_regions),
+            Directed::Nesting { depth, kind, with_stems } => nesting_glyph(&mut acc, *depth, *kind, *with_stems),
+            Directed::Blend { n, base, vsindex, twice } => blend_glyph(&mut acc, *n, fl.n_regions, *base, *vsindex, *twice),
+        });
+    }
+    let axis_count = if fl.cff2 { [1u16, 2, 3][chunk % 3] } else { 0 };
+    let c = assemble_directed(fl.cff2, &charstrings, &acc, fl.pd_kind, axis_count, fl.n_regions);
+    let upem = [1000u16, 1000, 2048, 250][chunk % 4];
+    let desc = format!("directed:{}:pd{}:regions{}:upem{}:glyphs{}..{}", if fl.cff2 { "cff2" } else { "cff1" }, fl.pd_kind, fl.n_regions, upem, lo, hi);
+    (cff_font_upem(&c, upem), desc)
+}
+
+fn directed_kind(r: &Directed) -> &'static str {
+    match r {
+        Directed::Edge(_) => "hint-map-edges",
+        Directed::StemCount { .. } => "stem-count/mask-length",
+        Directed::Stack { .. } => "operand-stack",
+        Directed::Nesting { .. } => "subr-nesting",
+        Directed::Blend { .. } => "blend-operands",
+    }
+}
+
+/// The capacity-directed section: every font of every flavor, one `cffcap` case each (split by size
+/// when the glyphs are heavy).
+pub fn sec_cff_directed(ctx: &mut Ctx, items: &mut Items) {
+    let mut n_fonts = 0u64;
+    let mut n_glyphs = 0u64;
+    for (fi, fl) in directed_flavors().iter().enumerate() {
+        let recipes = directed_recipes(fl);
+        let chunks = recipes.len().div_ceil(DIRECTED_GLYPHS_PER_FONT);
+        n_glyphs += recipes.len() as u64;
+        for chunk in 0..chunks {
+            n_fonts += 1;
+            if !items.mine(ctx) {
+                continue;
+            }
+            let (bytes, desc) = directed_font(fl, &recipes, chunk);
+            let lo = chunk * DIRECTED_GLYPHS_PER_FONT;
+            let hi = (lo + DIRECTED_GLYPHS_PER_FONT).min(recipes.len());
+            for r in &recipes[lo..hi] {
+                ctx.count(&format!("cffcap_glyphs:{}", directed_kind(r)), 1);
+                if let Directed::Edge(c) = r {
+                    let embox = if fl.pd_kind == 1 || fl.pd_kind == 3 { 2 } else { 0 };
+                    ctx.distinct("cffcap_edge_totals_(edges,ghosts,order)", (((2 * c.pairs + c.ghosts + embox) * 8 + c.ghosts) * 8 + c.order) as u64);
+                    ctx.label("cffcap_hint_map_edge_totals", &format!("{}", 2 * c.pairs + c.ghosts + embox));
+                }
+            }
+            ctx.count("charstring_programs_generated", (hi - lo) as u64);
+            ctx.distinct("cff_tables", fnv64(&bytes));
+            let name = format!("cffcap#{}.{}", fi, chunk);
+            let cat = if fl.cff2 { "cff2cap" } else { "cffcap" };
+            let fc = FontCase { name: &name, mutation: &desc, category: cat, bytes: &bytes };
+            let o = exec_case(ctx, &fc, &GroupSpec::new("open", 0, 0), None);
+            if !o.opened {
+                // a generator defect, not a finding: the directed fonts are meant to be well formed
+                ctx.inconclusive(format!("directed CFF font {} ({}) does not open", name, desc));
+                continue;
+            }
+            ctx.count(&format!("fonts_driven:{}", cat), 1);
+            exec_case(ctx, &fc, &GroupSpec::new("cffcap", 0, 0), None);
+        }
+    }
+    ctx.extra.insert(
+        "cff_capacity_directed".into(),
+        serde_json::json!({"flavors": directed_flavors().len(), "fonts": n_fonts, "glyph_programs": n_glyphs,
+            "sizes": format!("{:?}", drive::CFFCAP_SIZES), "hinting": "Interpreter x {Mono, Smooth} + AutoFallback x Light, pedantic off/on",
+            "note": "enumerated, independent of VERIF_SEED"}),
+    );
 }
